@@ -14,6 +14,7 @@ AST
 One behaviour per invocation; the last one repeats.  A phase with o.to == 0 is a *timeout phase*: every
 invocation blocks until killed (real-thread mode has no other timing construct).
 """
+import functools
 import itertools
 import threading
 import time
@@ -601,7 +602,30 @@ def build_phase(node, ctx, htf, plug_map=None):
       p = p.with_plugs(**{argname: plug_map[idx]})
     else:
       p = htf.plugs.plug(update_kwargs=bool(upd), **{argname: plug_map[idx]})(p)
+  if node.get('monitored'):
+    # the phase (with the plugs it requests) is wrapped by a monitor, as in openhtf.core.monitors' documented usage
+    from openhtf.core import monitors as _monitors  # pylint: disable=g-import-not-at-top
+    name = p.name
+    p = _monitors.monitors('mon_p%d' % pid, _monitor_probe, poll_interval_ms=50)(p)
+    p = htf.PhaseOptions(name=name)(p)
   return p
+
+
+def _monitor_probe(test):
+  return 1
+
+
+class _CallableTearDown(object):
+  """A tearDown that is a callable object rather than a function (still bound to the instance when looked up on one)."""
+
+  def __init__(self, fn):
+    self.fn = fn
+
+  def __get__(self, obj, owner):
+    return self if obj is None else functools.partial(self.fn, obj)
+
+  def __call__(self, *a):
+    return self.fn(*a)
 
 
 class PlugBoom(Exception):
@@ -633,7 +657,8 @@ def make_plug_classes(specs, ctx, htf):
         while not ctx.cancel.is_set():
           time.sleep(0.0005)
 
-    cls = type('Plug%d_%d' % (i, uid), (base,), {'__init__': __init__, 'tearDown': tearDown, 'vf_index': i})
+    td_attr = _CallableTearDown(tearDown) if sp.get('td_kind') == 'callable' else tearDown
+    cls = type('Plug%d_%d' % (i, uid), (base,), {'__init__': __init__, 'tearDown': td_attr, 'vf_index': i})
     classes.append(cls)
   ctx.plug_classes = classes
   return classes
